@@ -58,7 +58,7 @@ def chance(draw, p):
 
 def spell(value, repr_, style, rnd_bits):
     """A literal text for `value` in the given style. rnd_bits: small int for underscore placement."""
-    neg = value < 0
+    neg = value < 0 or (value == 0 and rnd_bits == 15 and repr_[0] == "i")        # -0 is a legal spelling of 0
     mag = -value if neg else value
     base, suffix = style
     if base == "dec":
@@ -350,6 +350,8 @@ def enum_specs(draw, prof=None):
         # which is exactly how the values above were assigned (removed variants are skipped).
     spec = {"repr": r, "vis": draw(st.sampled_from(prof["vis"])), "ident": "E",
             "enum_attrs": enum_attrs, "variants": variants}
+    if chance(draw, prof.get("repr_cfg_attr", 0.03)):
+        spec["repr_via_cfg_attr"] = True
     return spec
 
 
